@@ -197,23 +197,8 @@ def nchars(s):
 
 
 def classify_fn_failure(fn, a, impl, spec):
-    """impl (== engine) differs from spec: which known class (findings/C20.json), if any"""
-    n = a.get("n", 0)
-    if fn == "substring3" and a["m"] < 0 and impl == "S" and spec == "ERR":
-        return "substring-negative-count-accepted"
-    if fn == "initcap" and any((not c.isalnum()) and c not in INITCAP_SEPS for c in a["s"]):
-        return "initcap-unlisted-separator"
-    if fn == "split_part":
-        if n == 0 and spec == "ERR":
-            return "split-part-zero-field"
-        if a["a"] == "" and n == -1:
-            return "split-part-empty-delimiter-last"
-        if n < 0 and a["a"] != "":
-            d = a["a"]
-            # rsplit and split disagree only when delimiter occurrences overlap
-            s = a["s"]
-            if any(s.startswith(d, i) and any(s.startswith(d, j) for j in range(i + 1, i + len(d))) for i in range(len(s))):
-                return "split-part-negative-overlapping"
+    """impl (== engine) differs from spec: which known class (findings/C20.json), if any.
+    No class is left for C20: every difference from the definition is a violation."""
     return None
 
 
@@ -588,14 +573,10 @@ def stage_regex(ctx, rng, gverif, gmodel):
                                             "stmts": ["select %s('%s', '%s'%s)" % (nm, t[3], pat(t), ", '%s'" % t[4] if nm == "regexp_replace" else "")]}})
                     break
         if instr_m != instr_spec:
-            # property-level: position reported in bytes.  known class: a multi-byte character before the match
-            st = int(instr_spec[1:]) - 1
-            if any(ord(ch) > 127 for ch in t[3][:st]):
-                known.setdefault("regexp-instr-byte-offset", {"pattern": pat(t), "string": t[3], "engine": instr_m, "definition": instr_spec,
-                                                               "stmts": ["select regexp_instr('%s', '%s')" % (t[3], pat(t))]})
-            else:
-                viol.append({"what": "regexp_instr differs from the definition", "no_input": False,
-                             "replay": {"pattern": pat(t), "string": t[3], "engine": instr_m, "definition": instr_spec}})
+            # property-level: the position must be counted in characters (no known class any more)
+            viol.append({"what": "regexp_instr differs from the definition (character position of the first match)", "no_input": False,
+                         "replay": {"pattern": pat(t), "string": t[3], "engine": instr_m, "definition": instr_spec,
+                                    "stmts": ["select regexp_instr('%s', '%s')" % (t[3], pat(t))]}})
     viol = viol[:10]
     return {"violations": viol, "known": known, "evaluations": evals, "distinct": len(set((pat(t), t[3]) for t in tuples)),
             "sample": {"pattern": pat(tuples[-1]), "model_regex": rx_sexp(tuples[-1][2]), "string": tuples[-1][3], "model": mout[-1]},
